@@ -175,4 +175,102 @@ theorem eq_of_id_eq {l : List PObj} (h : l.Pairwise (fun a b => a.id ≠ b.id)) 
     · exact absurd hid.symm (h.1 a ha)
     · exact ih h.2 ha hb
 
+/-! ### `find` reports in insertion order -/
+
+theorem insertByKey_perm (key : PObj → Nat) (x : PObj) : ∀ l, (insertByKey key x l).Perm (x :: l)
+  | [] => List.Perm.refl _
+  | y :: ys => by
+    simp only [insertByKey]
+    split
+    · exact List.Perm.refl _
+    · exact (List.Perm.cons y (insertByKey_perm key x ys)).trans (List.Perm.swap _ _ _)
+
+theorem sortByKey_perm (key : PObj → Nat) : ∀ l, (sortByKey key l).Perm l
+  | [] => List.Perm.refl _
+  | x :: xs => (insertByKey_perm key x _).trans (List.Perm.cons x (sortByKey_perm key xs))
+
+theorem insertByKey_sorted (key : PObj → Nat) (x : PObj) : ∀ l, l.Pairwise (fun a b => key a ≤ key b) →
+    (insertByKey key x l).Pairwise (fun a b => key a ≤ key b)
+  | [], _ => by simp [insertByKey]
+  | y :: ys, h => by
+    simp only [insertByKey]
+    simp only [List.pairwise_cons] at h
+    split
+    · rename_i hxy
+      refine List.pairwise_cons.mpr ⟨?_, List.pairwise_cons.mpr h⟩
+      intro b hb
+      simp only [List.mem_cons] at hb
+      rcases hb with rfl | hb
+      · exact hxy
+      · exact Nat.le_trans hxy (h.1 b hb)
+    · rename_i hxy
+      refine List.pairwise_cons.mpr ⟨?_, insertByKey_sorted key x ys h.2⟩
+      intro b hb
+      have := (insertByKey_perm key x ys).subset hb
+      simp only [List.mem_cons] at this
+      rcases this with rfl | hb'
+      · omega
+      · exact h.1 b hb'
+
+theorem sortByKey_sorted (key : PObj → Nat) : ∀ l, (sortByKey key l).Pairwise (fun a b => key a ≤ key b)
+  | [] => List.Pairwise.nil
+  | x :: xs => insertByKey_sorted key x _ (sortByKey_sorted key xs)
+
+theorem mem_find {p : Plane} {q : Rect} {o : PObj} : o ∈ find p q ↔ o ∈ findScan p q :=
+  (sortByKey_perm _ _).mem_iff
+
+theorem nodup_find_of_scan {p : Plane} {q : Rect} (h : (findScan p q).Nodup) : (find p q).Nodup :=
+  (sortByKey_perm _ _).nodup_iff.mpr h
+
+/-- The rank of an element of a duplicate-free list is its position (from `i`) plus one. -/
+theorem rankIn_of_nodup : ∀ (l : List PObj) (o : PObj) (i acc : Nat), l.Nodup → o ∈ l →
+    rankIn l o i acc = i + l.idxOf o + 1
+  | [], _, _, _, _, h => by simp at h
+  | x :: rest, o, i, acc, hn, hm => by
+    simp only [List.nodup_cons] at hn
+    simp only [rankIn]
+    by_cases hx : x = o
+    · subst hx
+      have : ∀ (l : List PObj) (j a : Nat), x ∉ l → rankIn l x j a = a := by
+        intro l
+        induction l with
+        | nil => intro j a _; rfl
+        | cons y ys ih =>
+          intro j a hnot
+          simp only [List.mem_cons, not_or] at hnot
+          simp only [rankIn, if_neg (Ne.symm hnot.1)]
+          exact ih _ _ hnot.2
+      simp [this rest (i + 1) (i + 1) hn.1]
+    · simp only [List.mem_cons] at hm
+      have hm' : o ∈ rest := by
+        rcases hm with rfl | hm
+        · exact absurd rfl hx
+        · exact hm
+      rw [if_neg hx, rankIn_of_nodup rest o (i + 1) acc hn.2 hm']
+      have : (x :: rest).idxOf o = rest.idxOf o + 1 := by
+        have hb : (x == o) = false := by simp [hx]
+        simp [List.idxOf_cons, hb]
+      omega
+
+theorem rank_of_nodup {p : Plane} (hn : p.seq.Nodup) {o : PObj} (ho : o ∈ p.seq) :
+    rank p o = p.seq.idxOf o + 1 := by
+  simp [rank, rankIn_of_nodup p.seq o 0 0 hn ho]
+
+
+theorem seq_rank_sorted {p : Plane} (hn : p.seq.Nodup) : p.seq.Pairwise (fun a b => rank p a ≤ rank p b) := by
+  rw [List.pairwise_iff_getElem]
+  intro i j hi hj hij
+  rw [rank_of_nodup hn (List.getElem_mem hi), rank_of_nodup hn (List.getElem_mem hj),
+    hn.idxOf_getElem i hi, hn.idxOf_getElem j hj]
+  omega
+
+theorem rank_inj {p : Plane} (hn : p.seq.Nodup) {a b : PObj} (ha : a ∈ p.seq) (hb : b ∈ p.seq)
+    (h : rank p a = rank p b) : a = b := by
+  rw [rank_of_nodup hn ha, rank_of_nodup hn hb] at h
+  have h' : p.seq.idxOf a = p.seq.idxOf b := by omega
+  have ha' := List.getElem_idxOf (List.idxOf_lt_length_iff.mpr ha)
+  have hb' := List.getElem_idxOf (List.idxOf_lt_length_iff.mpr hb)
+  rw [← ha', ← hb']
+  simp only [h']
+
 end PdfVerif.Plane
